@@ -274,6 +274,7 @@ impl CastTo<T> for f64 {
 // ---------------------------------------------------------------------------
 // ndarray shim: logical (stride-free) containers
 // ---------------------------------------------------------------------------
+#[derive(Clone, Copy)]
 pub struct Axis(pub usize);
 pub const AX0: Axis = Axis(0);
 
